@@ -1,4 +1,5 @@
 import AikenVerif.Lemmas.CekRefine
+import AikenVerif.Lemmas.CekClosed
 /-!
 # C03 — the evaluator implements UPLC's operational semantics: property theorems
 
@@ -103,6 +104,43 @@ theorem spec_result_is_impl_result (cfg : Config) (fuel : Nat) (budget : ExBudge
   | panic => intro _; trivial
   | unmodelled => intro _; trivial
   | outOfFuel => intro _; trivial
+
+theorem runFrom_closed (cfg : Config) : ∀ (fuel : Nat) (a a' : Acct) (s : State) (t : NTerm),
+    s.closed = true → runFrom cfg fuel a s = .done a' t → Term.closedAt 0 t = true := by
+  intro fuel
+  induction fuel with
+  | zero => intro a a' s t _ h; simp [runFrom] at h
+  | succ n ih =>
+    intro a a' s t hs h
+    have hc := step_closed cfg a s hs
+    simp only [runFrom] at h
+    cases hst : step cfg a s with
+    | next a1 s1 => rw [hst] at h hc; exact ih a1 a' s1 t hc h
+    | done a1 t1 => rw [hst] at h hc; cases h; exact hc
+    | fail => rw [hst] at h; cases h
+    | oob => rw [hst] at h; cases h
+    | panic => rw [hst] at h; cases h
+    | unmodelled => rw [hst] at h; cases h
+
+/-- **C03 (result is closed)**: evaluating a CLOSED term returns a term with no free variable:
+every captured variable has been substituted, under lambdas, delays, applications, constructors
+and case expressions alike. -/
+theorem result_closed (cfg : Config) (fuel : Nat) (budget : ExBudget) (t r : NTerm) (a' : Acct)
+    (ht : Term.closedAt 0 t = true) (h : run cfg fuel budget t = .done a' r) : Term.closedAt 0 r = true := by
+  unfold run at h
+  cases hsu : cfg.costs.machineCost .startUp with
+  | none => rw [hsu] at h; cases h
+  | some c =>
+    rw [hsu] at h
+    simp only at h
+    cases hsp : spendBudget ⟨budget, initCounts⟩ c with
+    | ok a =>
+      rw [hsp] at h
+      exact runFrom_closed cfg fuel a a' (.compute [] [] t) r (by simp [State.closed, Value.closedList, ht]) h
+    | oob => rw [hsp] at h; cases h
+    | fail => rw [hsp] at h; cases h
+    | panic => rw [hsp] at h; cases h
+    | unmodelled => rw [hsp] at h; cases h
 
 /-- more fuel never changes a finished run -/
 theorem runFrom_fuel_mono (cfg : Config) : ∀ (n : Nat) (a : Acct) (s : State) (m : Nat),
